@@ -28,6 +28,13 @@ pub struct ProductD {
 
 #[derive(Debug, Clone, Serialize, Deserialize, PartialEq, Eq)]
 pub struct DbDesc {
+    /// how record ids relate to creation time: 0 = increasing with the instant of creation,
+    /// 1 = decreasing with it, 2 = file order (round-robin over products), 3 = a fixed scramble.
+    /// The `id` field is documented as "unique, monotonically increasing" — nothing ties it to
+    /// `build_time`, and the validator accepts any unique ids — while the documented order of a
+    /// product's builds is by `build_time`.
+    #[serde(default)]
+    pub id_mode: u8,
     pub products: Vec<ProductD>,
     /// ServerConfig.cdn_hosts
     pub cdn_hosts: String,
@@ -108,9 +115,13 @@ impl DbDesc {
     /// The JSON document handed to the server.
     pub fn to_records(&self) -> Vec<cascette_ribbit::BuildRecord> {
         let order = self.file_order();
-        // ids increase with the instant of creation ("monotonically increasing")
         let mut rank: Vec<usize> = (0..order.len()).collect();
-        rank.sort_by_key(|&i| (order[i].1.utc_secs, i));
+        match self.id_mode % 4 {
+            0 => rank.sort_by_key(|&i| (order[i].1.utc_secs, i)),
+            1 => rank.sort_by_key(|&i| (std::cmp::Reverse(order[i].1.utc_secs), i)),
+            2 => {}
+            _ => rank.sort_by_key(|&i| (i.wrapping_mul(7919) % 13, i)),
+        }
         let mut id_of = vec![0u64; order.len()];
         for (r, &i) in rank.iter().enumerate() {
             id_of[i] = r as u64 + 1;
